@@ -27,7 +27,7 @@ type HijackClientHelloConn struct {
 	buf bytes.Buffer
 
 	// expected length of the TLS client hello record
-	expectedLen uint16
+	expectedLen int
 
 	// verbose log func
 	VerboseLogFunc func(string, ...any)
@@ -99,7 +99,7 @@ func (c *HijackClientHelloConn) tryParseClientHello() error {
 		return fmt.Errorf("unknown tls version: 0x%x", vers)
 	}
 
-	handshakeLen := uint16(bufBytes[3])<<8 | uint16(bufBytes[4])
+	handshakeLen := int(bufBytes[3])<<8 | int(bufBytes[4])
 	c.expectedLen = recordHeaderLen + handshakeLen
 
 	// call hasCompleteClientHello to truncate the buffer if possible
